@@ -83,23 +83,23 @@ def decimalOK (s : Bytes) : Bool := !s.isEmpty && s.all isDigit
 /-- well-formed: exactly one `grpc-status` in 0..16, at most one correctly encoded
 `grpc-message` (empty when the status is 0), at most one unpadded, parseable
 `grpc-status-details-bin` agreeing with both -/
-def statusOK (dec : Bytes → DetailsDec) (h : Hdrs) : Bool :=
-  match hget h kStatus with
+def statusOKCore (dec : Bytes → DetailsDec) (st ms ds : List Bytes) : Bool :=
+  match st with
   | [s] =>
     match parseInt 64 s with
     | some code =>
       decide (0 ≤ code) && decide (code ≤ 16) &&
-      (match hget h kMessage with
+      (match ms with
         | [] => true
         | [m] => encodingOK m && (code != 0 || m.isEmpty)
         | _ => false) &&
-      (match hget h kDetails with
+      (match ds with
         | [] => true
         | [d] =>
           (match dec d with
             | .decoded false (some (c, msg, hasDetails)) =>
               c == code && !(c == 0 && hasDetails) &&
-              (match hget h kMessage with
+              (match ms with
                 | [m] => percentDecode m == some msg
                 | _ => true)
             | _ => false)
@@ -107,9 +107,10 @@ def statusOK (dec : Bytes → DetailsDec) (h : Hdrs) : Bool :=
     | none => false
   | _ => false
 
-def mustFlagStatus (dec : Bytes → DetailsDec) (h : Hdrs) : List (List StFb) :=
-  let st := hget h kStatus
-  let code : Option Int := match st with | [s] => parseInt 64 s | _ => none
+def statusOK (dec : Bytes → DetailsDec) (h : Hdrs) : Bool :=
+  statusOKCore dec (hget h kStatus) (hget h kMessage) (hget h kDetails)
+
+def mustStatus (st : List Bytes) : List (List StFb) :=
   (if st.length > 1 then [[StFb.multiStatus]] else [])
   ++ (if st.isEmpty then [[.noStatus]] else [])
   ++ (match st with
@@ -117,12 +118,17 @@ def mustFlagStatus (dec : Bytes → DetailsDec) (h : Hdrs) : List (List StFb) :=
         | none => [[.badStatus]]
         | some c => if c < 0 || c > 16 then [[.statusRange]] else []
       | _ => [])
-  ++ (if (hget h kMessage).length > 1 then [[.multiMessage]] else [])
-  ++ (match (hget h kMessage).head? with
+
+def mustMessage (ms : List Bytes) : List (List StFb) :=
+  (if ms.length > 1 then [[StFb.multiMessage]] else [])
+  ++ (match ms.head? with
       | some m => if !encodingOK m then [[.msg .hexExpected, .msg .unescaped, .msg .incomplete]] else []
       | none => [])
-  ++ (if (hget h kDetails).length > 1 then [[.multiDetails]] else [])
-  ++ (match (hget h kDetails).head? with
+
+def mustDetails (dec : Bytes → DetailsDec) (code : Option Int) (msg : Option Bytes) (ds : List Bytes) :
+    List (List StFb) :=
+  (if ds.length > 1 then [[StFb.multiDetails]] else [])
+  ++ (match ds.head? with
       | none => []
       | some d =>
         match dec d with
@@ -131,13 +137,23 @@ def mustFlagStatus (dec : Bytes → DetailsDec) (h : Hdrs) : List (List StFb) :=
           (if padded then [[StFb.detailsPadded]] else []) ++
           match stp with
           | none => [[.detailsUnparseable]]
-          | some (c, msg, _) =>
+          | some (c, m, _) =>
             (match code with
               | some sc => if c != wrap32 sc then [[StFb.detailsCodeMismatch]] else []
               | none => [])
-            ++ (match (hget h kMessage).head?.bind percentDecode with
-              | some m => if msg != m then [[.detailsMsgMismatch]] else []
+            ++ (match msg with
+              | some m' => if m != m' then [[.detailsMsgMismatch]] else []
               | none => []))
+
+/-- The malformation classes the status checks name (multiple / missing / invalid
+`grpc-status`, bad percent-encoding, bad or padded base64, status/details disagreement), as
+demands on the feedback: of each entry at least one alternative must be reported. -/
+def mustFlagStatusCore (dec : Bytes → DetailsDec) (st ms ds : List Bytes) : List (List StFb) :=
+  mustStatus st ++ mustMessage ms
+  ++ mustDetails dec (match st with | [s] => parseInt 64 s | _ => none) (ms.head?.bind percentDecode) ds
+
+def mustFlagStatus (dec : Bytes → DetailsDec) (h : Hdrs) : List (List StFb) :=
+  mustFlagStatusCore dec (hget h kStatus) (hget h kMessage) (hget h kDetails)
 
 def statusHolds (dec : Bytes → DetailsDec) (h : Hdrs) (fb : List StFb) : Bool :=
   (!statusOK dec h || fb.isEmpty) && (mustFlagStatus dec h).all (fun alts => alts.any fb.contains)
